@@ -249,6 +249,84 @@ def run_case(case, ctx):
                   lambda: f"max error {float(np.abs(gb - X).max()):.3g} > {tol_b:.3g}")
 
 
+# ----------------------------------------------------------------------------- pipelines of transforms
+@st.composite
+def pipeline_strategy(draw, tier):
+    base = draw(case_strategy(tier))
+    stages = [{k: v for k, v in base.items() if k != "tree"}]
+    for _ in range(draw(st.integers(1, 2))):
+        more = draw(case_strategy("quick"))
+        stages.append({k: v for k, v in more.items() if k != "tree"})
+    if draw(st.booleans()):
+        # the combination a pre-multiplying optimiser has to get right: a stage about the root that moves the root,
+        # followed by another stage about the root
+        stages[0]["center"] = stages[1]["center"] = "root"
+    for st_ in stages:
+        st_["via"] = "instance"
+    return {"tree": base["tree"], "stages": stages}
+
+
+def run_pipeline(case, ctx):
+    """Transforms(a, b[, c])(tree) moves every node by the composition of the stated maps, each about the centre as it
+    lies when that stage is reached."""
+    from swcgeom import transforms as T
+
+    t = _root_shift(gen_tree.materialize(case["tree"]))
+    tree = gen_tree.build_tree(t)
+    n = len(tree)
+    X = models.xyz64(t)
+    root = t["parents"].index(-1)
+    before = {k: v.copy() for k, v in tree.ndata.items()}
+    objs = []
+    want = X.copy()
+    amp = 1.0 + float(np.abs(X).max())
+    moves_root_then_root_centred = False
+    root_moved = False
+    for stg in case["stages"]:
+        f, M, b, uses_centre, _inv = _make(stg)
+        objs.append(f)
+        about_root = uses_centre and stg["center"] in ("root", "soma")
+        c = want[root] if about_root else np.zeros(3)
+        if about_root and root_moved:
+            moves_root_then_root_centred = True
+        old_root = want[root].copy()
+        if stg["kind"] == "translate_origin":
+            want = want - want[root]
+        else:
+            want = c + (want - c) @ M.T + b
+            amp = amp * max(1.0, float(np.abs(M).sum(axis=1).max())) + float(np.abs(b).max())
+        amp = max(amp, 1.0 + float(np.abs(want).max()))
+        if float(np.abs(want[root] - old_root).max()) > 1e-3:
+            root_moved = True
+    kinds = "+".join(stg["kind"] for stg in case["stages"])
+    ctx.cls(f"stages:{len(objs)}")
+    if moves_root_then_root_centred:
+        ctx.cls("root-centred-stage-after-the-root-was-moved")
+    ctx.nontrivial(n >= 3 and _noncollinear(X) and moves_root_then_root_centred)
+    pipe = T.Transforms(*objs)
+    out = ctx.lib("Transforms/apply", pipe, tree)
+    for k, v in before.items():
+        ctx.check(np.array_equal(tree.ndata[k], v), "pipeline/input-unchanged", f"column {k} modified")
+    for col in ("id", "pid", "type", "r", "tag", "w"):
+        ctx.check(np.array_equal(out.ndata[col], before[col]), "pipeline/topology-types-radii-extras-unchanged", f"column {col} changed")
+    got = np.stack([out.x(), out.y(), out.z()], axis=1).astype(np.float64)
+    tol = 2e-4 * amp * len(objs)
+    err = float(np.abs(got - want).max())
+    ctx.check(err <= tol, "pipeline/every-node-moved-by-the-composed-map",
+              lambda: f"{kinds}: max error {err:.3g} > tol {tol:.3g}; root got {got[root].tolist()} expected {want[root].tolist()}; "
+                      f"stages {case['stages']}")
+    # the same pipeline object once more, and the stages applied by hand
+    again = ctx.lib("Transforms/apply", pipe, tree)
+    ga = np.stack([again.x(), again.y(), again.z()], axis=1).astype(np.float64)
+    ctx.check(float(np.abs(ga - got).max()) <= 1e-6 * amp, "pipeline/second-call-gives-the-same-result", f"{kinds}")
+    seq = tree
+    for o in objs:
+        seq = o(seq)
+    gs = np.stack([seq.x(), seq.y(), seq.z()], axis=1).astype(np.float64)
+    ctx.check(float(np.abs(gs - got).max()) <= tol, "pipeline/equals-the-stages-applied-one-by-one",
+              lambda: f"{kinds}: max difference {float(np.abs(gs - got).max()):.3g}")
+
+
 # ----------------------------------------------------------------------------- matrix builders
 @st.composite
 def builder_strategy(draw, tier):
@@ -304,6 +382,8 @@ SUBCHECKS = [
                                                             "angle:multiple-of-pi/2": 20, "root-not-at-0": 200, "n>60": 60,
                                                             "transform-object-reused-on-a-tree-of-the-same-source": 150,
                                                             "affine-matrix-with-homogeneous-scale": 60})),
+    Sub("pipeline", pipeline_strategy, run_pipeline, quick=800, thorough=8000, shards_quick=4,
+        required={"root-centred-stage-after-the-root-was-moved": 150, "stages:3": 100}),
     Sub("builders", builder_strategy, run_builder, quick=600, thorough=8000, shards_quick=2,
         required={"axis:general": 200, "axis:coordinate": 30}),
 ]
